@@ -4,7 +4,7 @@
     hunk iterator (Layer A), and the histogram LCS (Layer B, [M_hist]). *)
 From Coq Require Import Lia Arith Sorted.
 From Verif Require Import Base.Prelude Model.Diff Model.C03
-     Proofs.DiffBase Proofs.DiffA Proofs.DiffA2 Proofs.DiffA3 Proofs.DiffA4 Proofs.C03.
+     Proofs.DiffBase Proofs.DiffA Proofs.DiffA2 Proofs.DiffA3 Proofs.DiffA4 Proofs.DiffThm Proofs.C03.
 
 (** Layer A: for ANY matching function [M] whose results are in range and strictly
     increasing in both coordinates ([valid_matching], decided by [valid_matchingb]), every
